@@ -54,7 +54,9 @@ Definition oapi_spec (fuel : nat) (default_eps : nat -> T S) (st : store S) (q :
                                 o_num_leaders := match q_num_leaders q with Some z => z | None => 0%Z end;
                                 o_max_iters := q_max q; o_min_iters := q_min q; o_check_freq := q_freq q |} in
                     match compute fuel c_eff p_eff a e o with
-                    | Done t k fs => match discount t d_eff with Ok t' => R200 t' k fs | _ => R500 end
+                    | Done t k fs => match discount t d_eff with
+                                    | Ok t' => if existsb (fun e => nonfinite S (snd e)) (vents t') then R500 else R200 t' k fs
+                                    | _ => R500 end
                     | Failed _ => R500
                     | OutOfFuel => RHang
                     | Panicked => RPanic
